@@ -2,6 +2,7 @@
    valid for every choice of the stage components. *)
 From IT Require Import model.Pipeline.
 From IT Require Import proofs.SubstProofs.   (* alookup lemmas *)
+From IT Require Import proofs.CleanArtifactsProofs.   (* order lemmas on strings *)
 
 
 (* ---------- reflect.DeepEqual on artifact maps is an equivalence on well-formed maps ---------- *)
@@ -266,6 +267,54 @@ Section P.
     destruct (_ && _); [exact IH | right; eexists; reflexivity].
   Qed.
 
+  Lemma min_entry_in best links : In (min_entry best links) (best :: links).
+  Proof.
+    revert best. induction links as [|[k e] r IH]; intros best; simpl; [left; reflexivity|].
+    destruct (str_ltb k (fst best)).
+    - destruct (IH (k, e)) as [H|H]; [right; left; exact H | right; right; exact H].
+    - destruct (IH best) as [H|H]; [left; exact H | right; right; exact H].
+  Qed.
+
+  Lemma min_entry_le best links x : In x (best :: links) -> str_ltb (fst x) (fst (min_entry best links)) = false.
+  Proof.
+    revert best x. induction links as [|[k e] r IH]; intros best x Hin; simpl.
+    - destruct Hin as [<-|[]]. apply str_ltb_irrefl.
+    - destruct (str_ltb k (fst best)) eqn:E.
+      + destruct Hin as [<-|[<-|Hin]].
+        * (* x = best: min <= k < best *)
+          destruct (str_ltb (fst best) (fst (min_entry (k, e) r))) eqn:E2; [|reflexivity].
+          pose proof (IH (k, e) (k, e) (or_introl eq_refl)) as Hk. simpl in Hk.
+          rewrite (str_ltb_trans _ _ _ E E2) in Hk. discriminate.
+        * apply IH. left. reflexivity.
+        * apply IH. right. exact Hin.
+      + destruct Hin as [<-|[<-|Hin]].
+        * apply IH. left. reflexivity.
+        * simpl. destruct (str_ltb k (fst (min_entry best r))) eqn:E2; [|reflexivity].
+          pose proof (IH best best (or_introl eq_refl)) as Hb.
+          destruct (str_ltb (fst (min_entry best r)) (fst best)) eqn:E3; [|].
+          -- rewrite (str_ltb_trans _ _ _ E2 E3) in E. discriminate.
+          -- rewrite (str_ltb_trichotomy _ _ Hb E3) in E. congruence.
+        * apply IH. right. exact Hin.
+  Qed.
+
+  Lemma in_nodup_fst {V} (l : amap V) k v1 v2 : NoDup (map fst l) -> In (k, v1) l -> In (k, v2) l -> v1 = v2.
+  Proof.
+    intros Hnd H1 H2. pose proof (alookup_in l k v1 Hnd H1) as A. pose proof (alookup_in l k v2 Hnd H2) as B. congruence.
+  Qed.
+
+  Lemma min_entry_perm p r p' r' : NoDup (map fst (p :: r)) -> Permutation (p :: r) (p' :: r') ->
+    min_entry p r = min_entry p' r'.
+  Proof.
+    intros Hnd Hp.
+    pose proof (min_entry_in p r) as I1. pose proof (min_entry_in p' r') as I2.
+    assert (I2' : In (min_entry p' r') (p :: r)) by (eapply Permutation_in; [apply Permutation_sym, Hp | exact I2]).
+    assert (I1' : In (min_entry p r) (p' :: r')) by (eapply Permutation_in; [exact Hp | exact I1]).
+    pose proof (min_entry_le p r _ I2') as L1. pose proof (min_entry_le p' r' _ I1') as L2.
+    pose proof (str_ltb_trichotomy _ _ L2 L1) as Hk.
+    destruct (min_entry p r) as [k1 e1]. destruct (min_entry p' r') as [k2 e2]. simpl in Hk. subst k2.
+    f_equal. eapply in_nodup_fst; eassumption.
+  Qed.
+
   (* the reduced link of a step is one of its links; with several links it is accepted iff all of them
      are links agreeing with it on materials and products *)
   Theorem reduce_step_ok links e :
@@ -276,18 +325,22 @@ Section P.
     unfold reduce_step. destruct links as [|[k0 e0] r]; [discriminate|].
     destruct r as [|p r].
     - intro H; inversion H; subst. split; [exists k0; left; reflexivity | simpl; lia].
-    - destruct (env_link e0) as [ref|c|pp] eqn:El; cbn [rbind]; try discriminate.
+    - set (m := min_entry (k0, e0) (p :: r)). cbv zeta.
+      destruct (env_link (snd m)) as [ref|c|pp] eqn:El; cbn [rbind]; try discriminate.
       destruct (all_agree ref ((k0, e0) :: p :: r)) as [[]|c|pp] eqn:Ea; cbn [rbind]; try discriminate.
-      intro H; inversion H; subst. split; [exists k0; left; reflexivity|].
-      intros _. exists ref. split; [exact El|]. apply all_agree_ok. exact Ea.
+      intro H; inversion H; subst. split.
+      + exists (fst m). pose proof (min_entry_in (k0, e0) (p :: r)) as Hin. fold m in Hin. destruct m; exact Hin.
+      + intros _. exists ref. split; [exact El|]. apply all_agree_ok. exact Ea.
   Qed.
 
-  Theorem reduce_step_complete k0 e0 r ref :
-    env_link e0 = Ok ref -> (forall k' e', In (k', e') ((k0, e0) :: r) -> agrees ref e') ->
-    reduce_step ((k0, e0) :: r) = Ok e0.
+  Theorem reduce_step_complete links ref :
+    (length links >= 2)%nat ->
+    (forall p r, links = p :: r -> env_link (snd (min_entry p r)) = Ok ref) ->
+    (forall k' e', In (k', e') links -> agrees ref e') ->
+    exists e, reduce_step links = Ok e.
   Proof.
-    intros El H. unfold reduce_step. destruct r as [|p r]; [reflexivity|].
-    rewrite El. cbn [rbind]. apply all_agree_ok in H. rewrite H. reflexivity.
+    intros Hlen El H. unfold reduce_step. destruct links as [|[k0 e0] [|q r]]; [simpl in Hlen; lia | simpl in Hlen; lia|].
+    cbv zeta. rewrite (El (k0, e0) (q :: r) eq_refl). cbn [rbind]. apply all_agree_ok in H. rewrite H. eexists. reflexivity.
   Qed.
 
   Theorem reduce_step_empty_panics : reduce_step [] = Panic p_reduce_nolinks.
@@ -706,13 +759,17 @@ Section P.
     - destruct (reduce_step links) as [e|c|p] eqn:Hr; simpl; try discriminate. intros _.
       destruct (reduce_step_ok _ _ Hr) as [[k Hin] Hall]. split; [intro; subst; contradiction|].
       intro Hlen. destruct (Hall Hlen) as [ref [El Hag]]. exists ref. split; [exists k, e; auto | exact Hag].
-    - intros [Hne Hall]. destruct links as [|[k0 e0] r]; [congruence|].
-      destruct r as [|p r]; [reflexivity|].
+    - intros [Hne Hall]. destruct links as [|p0 r]; [congruence|].
+      destruct r as [|q r]; [destruct p0; reflexivity|].
       destruct (Hall ltac:(simpl; lia)) as [ref [[k [e [Hin El]]] Hag]].
-      destruct (Hag k0 e0 (or_introl eq_refl)) as [l0 [El0 [M0 P0]]].
-      rewrite (reduce_step_complete k0 e0 (p :: r) l0 El0); [reflexivity|].
-      intros k' e' Hin'. eapply agrees_switch; [|apply (Hag k' e' Hin')].
-      exists e0. split; [|exact El0]. exists l0. auto.
+      pose proof (min_entry_in p0 (q :: r)) as Hm. destruct (min_entry p0 (q :: r)) as [km em] eqn:Em.
+      destruct (Hag km em Hm) as [lm [Elm [Mm Pm]]].
+      destruct (reduce_step_complete (p0 :: q :: r) lm) as [e' He'].
+      + simpl; lia.
+      + intros p1 r1 Heq. inversion Heq; subst. rewrite Em. exact Elm.
+      + intros k' e' Hin'. eapply agrees_switch; [|apply (Hag k' e' Hin')].
+        exists em. split; [|exact Elm]. exists lm. auto.
+      + rewrite He'. reflexivity.
   Qed.
 
   Theorem reduce_step_perm links links' : all_links_wf links -> Permutation links links' ->
@@ -732,21 +789,41 @@ Section P.
     - rewrite (Himp _ _ Hwf' (Permutation_sym Hp) E2) in E1. discriminate.
   Qed.
 
-  (* whichever link is taken, it carries the agreed artifacts *)
-  Theorem reduce_step_agreed links links' e e' : all_links_wf links -> Permutation links links' ->
-    reduce_step links = Ok e -> reduce_step links' = Ok e' ->
-    exists l l', env_link e = Ok l /\ env_link e' = Ok l' /\
-      artifacts_eqb (ln_materials l') (ln_materials l) = true /\ artifacts_eqb (ln_products l') (ln_products l) = true
-    \/ e = e'.
+  (* with the deterministic choice of the reference the very same link is returned for every order *)
+  Theorem reduce_step_perm_eq links links' e : NoDup (map fst links) -> all_links_wf links -> Permutation links links' ->
+    reduce_step links = Ok e -> reduce_step links' = Ok e.
   Proof.
-    intros Hwf Hp H1 H2. destruct (reduce_step_ok _ _ H1) as [[k Hin] Hall]. destruct (reduce_step_ok _ _ H2) as [[k' Hin'] _].
-    destruct links as [|x [|y r]].
-    - contradiction.
-    - apply Permutation_length_1_inv in Hp. subst. destruct Hin as [Heq|[]]; destruct Hin' as [Heq'|[]]. subst.
-      inversion Heq'; subst. exists empty_link, empty_link. right. reflexivity.
-    - destruct (Hall ltac:(simpl; lia)) as [ref [El Hag]].
-      assert (Hin2 : In (k', e') (x :: y :: r)) by (eapply Permutation_in; [apply Permutation_sym, Hp | exact Hin']).
-      destruct (Hag k' e' Hin2) as [l' [El' [M P]]]. exists ref, l'. left. auto.
+    intros Hnd Hwf Hp H.
+    assert (Hok : is_ok (reduce_step links') = true) by (rewrite <- (reduce_step_perm _ _ Hwf Hp), H; reflexivity).
+    destruct (reduce_step links') as [e'|c|pp] eqn:H'; try discriminate. f_equal.
+    destruct links as [|[pk pe] [|q r]].
+    - discriminate.
+    - apply Permutation_length_1_inv in Hp. subst. rewrite H in H'. inversion H'; reflexivity.
+    - destruct links' as [|[pk' pe'] [|q' r']];
+        [apply Permutation_sym, Permutation_nil in Hp; discriminate
+        | apply Permutation_length in Hp; simpl in Hp; lia |].
+      unfold reduce_step in H, H'. cbv zeta in H, H'.
+      rewrite (min_entry_perm (pk, pe) (q :: r) (pk', pe') (q' :: r') Hnd Hp) in H.
+      destruct (env_link (snd (min_entry (pk', pe') (q' :: r')))) as [ref|c|pp2]; cbn [rbind] in H, H'; try discriminate.
+      destruct (all_agree ref ((pk, pe) :: q :: r)) as [[]|c|pp2]; cbn [rbind] in H; try discriminate.
+      destruct (all_agree ref ((pk', pe') :: q' :: r')) as [[]|c|pp2]; cbn [rbind] in H'; try discriminate.
+      inversion H; inversion H'; subst. reflexivity.
+  Qed.
+
+  Lemma verify_layout_signatures_perm e keys keys' :
+    Permutation keys keys' -> verify_layout_signatures vsig e keys = verify_layout_signatures vsig e keys'.
+  Proof.
+    intro Hp. unfold verify_layout_signatures.
+    destruct keys as [|p r]; [apply Permutation_nil in Hp; subst; reflexivity|].
+    destruct keys' as [|p' r']; [apply Permutation_sym, Permutation_nil in Hp; discriminate|].
+    destruct (all_keys_verify_cases e (p :: r)) as [H1|H1]; destruct (all_keys_verify_cases e (p' :: r')) as [H2|H2];
+      rewrite H1, H2; try reflexivity; exfalso.
+    - pose proof (proj1 (all_keys_verify_ok e (p :: r)) H1) as G1. assert (all_keys_verify vsig e (p' :: r') = Ok tt).
+      { apply all_keys_verify_ok. intros id k Hin. apply (G1 id k). eapply Permutation_in; [apply Permutation_sym, Hp | exact Hin]. }
+      congruence.
+    - pose proof (proj1 (all_keys_verify_ok e (p' :: r')) H2) as G2. assert (all_keys_verify vsig e (p :: r) = Ok tt).
+      { apply all_keys_verify_ok. intros id k Hin. apply (G2 id k). eapply Permutation_in; [exact Hp | exact Hin]. }
+      congruence.
   Qed.
 
   (* ---------- an Enter event of this level names a verified, layout-typed link ---------- *)
